@@ -1,6 +1,7 @@
 import BigtreeModel.Proto
 import BigtreeModel.DagStore
 import BigtreeModel.DagBridge
+import BigtreeModel.DagCopy
 /-! Driver handler for property C10 (also used for the DAGNode class of C02 / C20).
 
 One line = one whole history:
@@ -19,6 +20,10 @@ ops (`<f>` ∈ `none|pre|post`; `<m>` = node id or `j<k>` for the k-th non-node 
 
 Output: for each op `<ok|rej> <i>:<parents>/<children> …` (every node, ids ascending, lists in
 store order), ops joined by ` ; `.
+
+Optional header key `copy=<v>` (tie of `DagStore.deepCopy`, `BigtreeProofs/Properties/C07Dag.lean`): after the history
+(and the `iter` part) ` ; copy <i+n>:<parents>/<children> …` is appended for every node `i` of the final store — the cells
+of the duplicates in `deepCopy s`.
 
 Optional header key `iter=<v>` (tie of the bridge `DagStore.toDag`, `BigtreeProofs/Properties/DagBridge.lean`):
 after the history, ` ; iter <p>><c>,<p>><c>,…` is appended — `Dag.dagIter (toDag s) v` on the final store
@@ -146,7 +151,18 @@ def handle (toks : List String) : String :=
         let v ← t.toNat?
         let fin := runFinal asrt (init n fun i => names.getD i []) ops
         if v < fin.n then some (" ; iter " ++ showPairs (Dag.dagIter (toDag fin) v)) else none
-    pure (" ; ".intercalate outs ++ tail)
+    let tail2 ← match kv hd "copy" with
+      | none => some ""
+      | some t => do
+        let v ← t.toNat?
+        let fin := runFinal asrt (init n fun i => names.getD i []) ops
+        let cp := deepCopy fin
+        if v < fin.n then
+          some (" ; copy " ++ " ".intercalate ((List.range fin.n).map fun i =>
+            toString (copyOf fin i) ++ ":" ++ showMembers (cp.parents (copyOf fin i)) ++ "/" ++
+              showMembers (cp.children (copyOf fin i))))
+        else none
+    pure (" ; ".intercalate outs ++ tail ++ tail2)
   r.getD "bad-op"
 
 end Drv.C10
